@@ -382,7 +382,7 @@ func (r *relay) data(id uint32, data []byte, streamEnded bool) error {
 		nextPayload := make([]byte, nextPayloadLength)
 		copy(nextPayload, data)
 		data = data[nextPayloadLength:]
-		f := &queuedDataFrame{id, streamEnded && len(data) == 0, nextPayload}
+		f := &queuedDataFrame{streamID: id, endStream: streamEnded && len(data) == 0, data: nextPayload, relay: r}
 
 		r.flowMu.Lock()
 		w.enqueue(f)
@@ -557,7 +557,7 @@ func (w *outputBuffer) emitEligibleFrames(output chan queuedFrame, connectionWin
 			// whose window never grows to the size of the frame would never get it.
 			avail := min(*connectionWindowSize, w.windowSize)
 			if df, ok := f.(*queuedDataFrame); ok && avail > 0 {
-				output <- &queuedDataFrame{streamID: df.streamID, data: df.data[:avail]}
+				output <- &queuedDataFrame{streamID: df.streamID, data: df.data[:avail], relay: df.relay}
 				df.data = df.data[avail:]
 
 				*connectionWindowSize -= avail
